@@ -455,6 +455,19 @@ func checkExpressionShortcuts(w *World, r *Report) {
 						if calleeFunc(y) == tokExpr || calleeFunc(y) == addTok {
 							return
 						}
+						// a function that cuts the text into pieces (two or more string results)
+						// yields parts of x, not another form of x
+						if sig := y.Call.Signature(); sig != nil {
+							nstr := 0
+							for k := 0; k < sig.Results().Len(); k++ {
+								if isString(sig.Results().At(k).Type()) {
+									nstr++
+								}
+							}
+							if nstr >= 2 {
+								return
+							}
+						}
 						for _, a := range y.Call.Args {
 							if derived[a] && isString(a.Type()) {
 								derived[v], changed = true, true
